@@ -134,6 +134,14 @@ theorem digest_chunks (p : Sha) (hp : Reusable p) (chunks : List (List UInt8)) (
   have := finalize_spec transformOK _ _ hI hlen
   exact ⟨this.1, (inv_nil_iff _).mp this.2⟩
 
+/-- the same from any mid-stream state (`Inv m p`: `p` has absorbed `m`), up to the capacity of the 64-bit byte counter -/
+theorem digest_chunks_from (m : List UInt8) (p : Sha) (hI : Inv m p) (chunks : List (List UInt8))
+    (hlen : m.length + chunks.flatten.length < 2 ^ 64) :
+    (finalize (chunks.foldl update p)).1 = Spec.sha256 (m ++ chunks.flatten) ∧ Reusable (finalize (chunks.foldl update p)).2 := by
+  have hI' := foldl_update_inv transformOK chunks m p hI hlen
+  have := finalize_spec_all transformOK _ _ hI'
+  exact ⟨this.1, (inv_nil_iff _).mp this.2⟩
+
 theorem sha256_length (m : List UInt8) : (Spec.sha256 m).length = 32 := by
   unfold Spec.sha256
   obtain ⟨a, b, c, d, e, f, g, h, hh⟩ := list8 _ (hashBlocks_length _ (Spec.pad m) rfl Spec.H0 specH0_length)
